@@ -3,9 +3,12 @@
 A query method Q of a class (here: the dynamics methods of Arm) may keep a result between calls in a field X of the object only if every
 method that changes what X was computed from also discards X.  The rule is a closed def-use argument over the class:
 
-  memo field      a field `self.X` that Q both stores (`self.X = e`, `self.X[k] = e`, augmented stores) and reads
+  memo field      a field `self.X` that Q stores (`self.X = e`, `self.X[k] = e`, augmented stores) and reads at a point that is not preceded,
+                  in the method's statement sequence, by an unconditional whole-field store (such a read can see an earlier call's value)
   sources of X    the fields `self.F` read by the stored expression e, followed backwards through the locals of Q (every statement of Q
                   that binds or fills a local e reads, transitively) and through `self.m(...)` calls (fields read by m, transitively)
+                  sources that reach the stored value only through locals that a test guarding the store compares with the kept field
+                  (the key of a keyed memo) are re-validated on every call and are not sources
   writers of F    every method of the class and its bases that stores F or an element of F, or stores through a call of such a method
   obligation      each writer of a source F also stores X (itself or through a self-call, transitively)
 
@@ -115,7 +118,7 @@ def _closure(methods, start_names, per):
     return acc
 
 
-def sources_of(fn, stored_exprs, methods):
+def sources_of(fn, stored_exprs, methods, validated=frozenset()):
     """Fields the stored expressions depend on: backwards through the locals of fn and through self-calls."""
     me = _self_name(fn)
     # local name -> nodes that bind / fill it (value side plus, for element stores, the index side; loop iterables for loop targets)
@@ -145,7 +148,7 @@ def sources_of(fn, stored_exprs, methods):
             for e in ast.walk(n.optional_vars):
                 if isinstance(e, ast.Name):
                     binds.setdefault(e.id, []).append(n.context_expr)
-    fields, seen_names, todo = set(), set(), list(stored_exprs)
+    fields, seen_names, todo = set(), set(validated), list(stored_exprs)
     called = set()
     while todo:
         e = todo.pop()
@@ -159,6 +162,50 @@ def sources_of(fn, stored_exprs, methods):
     return fields - called
 
 
+def guard_names(fn, x):
+    """Locals the tests guarding the stores of self.x depend on (transitively through their bindings): what the kept value is
+    re-validated against on every call (the key of a keyed memo).  A source that reaches the kept value only through these is covered
+    by the comparison and needs no discarding."""
+    me = _self_name(fn)
+    parents = {}
+    for n in ast.walk(fn):
+        for c in ast.iter_child_nodes(n):
+            parents[c] = n
+    binds = {}
+    for n in ast.walk(fn):
+        if isinstance(n, ast.Assign):
+            for t in n.targets:
+                for e in (t.elts if isinstance(t, (ast.Tuple, ast.List)) else [t]):
+                    if isinstance(e, ast.Name):
+                        binds.setdefault(e.id, []).append(n.value)
+    names = set()
+    for n in ast.walk(fn):
+        if isinstance(n, (ast.Assign, ast.AugAssign, ast.AnnAssign)):
+            tg = n.targets if isinstance(n, ast.Assign) else [n.target]
+            flat = []
+            for t in tg:
+                flat.extend(t.elts if isinstance(t, (ast.Tuple, ast.List)) else [t])
+            if not any(_field_of(t, me) == x for t in flat):
+                continue
+            a = n
+            while a in parents and a is not fn:
+                pa = parents[a]
+                if isinstance(pa, (ast.If, ast.While)) and a is not pa.test:
+                    # only tests that also read the kept field compare it with something
+                    if x in _loads(pa.test, me)[0]:
+                        names |= _loads(pa.test, me)[1]
+                a = pa
+    todo = list(names)
+    while todo:
+        nm = todo.pop()
+        for v in binds.get(nm, []):
+            for k in _loads(v, me)[1]:
+                if k not in names:
+                    names.add(k)
+                    todo.append(k)
+    return names
+
+
 def check(rep, rule, cls, queries, what):
     """queries: FuncInfo list.  Returns the number of memo fields found."""
     methods = all_methods(cls)
@@ -170,7 +217,18 @@ def check(rep, rule, cls, queries, what):
         if me is None:
             continue
         st = stores(fn)
-        rd = _loads(fn, me)[0]
+        # reads that can see what an EARLIER call left: not preceded, in the statement sequence of the method, by an unconditional whole-field store
+        definite, rd = set(), set()
+        for stmt in fn.body:
+            rd |= _loads(stmt, me)[0] - definite
+            if isinstance(stmt, ast.Assign):
+                for t in stmt.targets:
+                    for e in (t.elts if isinstance(t, (ast.Tuple, ast.List)) else [t]):
+                        if isinstance(e, ast.Attribute) and isinstance(e.value, ast.Name) and e.value.id == me:
+                            definite.add(e.attr)
+            elif isinstance(stmt, ast.AnnAssign) and stmt.value is not None and isinstance(stmt.target, ast.Attribute) \
+                    and isinstance(stmt.target.value, ast.Name) and stmt.target.value.id == me:
+                definite.add(stmt.target.attr)
         for x in sorted(set(st) & rd):
             n_memo += 1
             exprs = []
@@ -182,7 +240,7 @@ def check(rep, rule, cls, queries, what):
                         flat.extend(t.elts if isinstance(t, (ast.Tuple, ast.List)) else [t])
                     if any(_field_of(t, me) == x for t in flat):
                         exprs.append(n.value)
-            src = sources_of(fn, exprs, methods) - {x}
+            src = sources_of(fn, exprs, methods, frozenset(guard_names(fn, x))) - {x}
             rep.count('%s memo fields' % rule)
             for other_name, m in sorted(methods.items()):
                 if m.node is fn:
